@@ -78,7 +78,7 @@ CHECKS["C12"] = dict(
           "avar, STAT and cvar follow the specification's record layouts; each MVAR value tag varies the field the specification assigns to it; "
           "the per-axis region scalar (calculate_scalar), read from MIR as a decision list and evaluated in exact rational arithmetic on a grid that "
           "contains every ordering and tie of instance, start, peak and end, equals the specification's tent function, and the implied region of a tuple "
-          "without intermediate coordinates is min(peak, 0) ..= max(peak, 0) (R12-TENT). "
+          "without intermediate coordinates is min(peak, 0) ..= max(peak, 0) (R12-TENT); an offset read by a reader is used to locate data or kept, not only range-checked (R-OFF). "
           "Delta accumulation, IUP interpolation, phantom points, HVAR/MVAR application and rounding are not decided."),
     design_ref="DESIGN.md section 6, C12",
 )
@@ -159,7 +159,7 @@ CHECKS["C04"] = dict(
           "into fields of the same meaning; feature-variation conditions test their range inclusively; after a multiple or ligature substitution "
           "the position and the bound of the run being processed move by what the substitution reports (T04-RUN, piecewise-linear comparison of the "
           "updates with the specification), in the top-level loop and in the change reported by a nested lookup. Glyph matching, "
-          "context rule selection and the bookkeeping of context lookups are not decided. A feature variation record is passed over only after its condition set was evaluated (T04-FVR); binary searches only over data the specification orders (T04-BS, audited sites)."),
+          "context rule selection and the bookkeeping of context lookups are not decided. A feature variation record is passed over only after its condition set was evaluated (T04-FVR); the length returned by a window application of the fraction features is dropped only when no application follows (T04-FRAC); binary searches only over data the specification orders (T04-BS, audited sites)."),
     design_ref="DESIGN.md section 6, C04",
 )
 
@@ -196,7 +196,7 @@ CHECKS["C09"] = dict(
           "checksum, records carrying the unpadded length and the running padded offset through checked conversions; tables kept and emitted "
           "in tag order; glyf, loca and head written with one loca format; the WOFF2 provider serialises head after its last modification; hmtx writers and hhea.numberOfHMetrics agree (the instancer sets "
           "it on every path); composite glyph reader and writer agree on where WE_HAVE_INSTRUCTIONS is looked for. "
-          "Mutual consistency of table contents and the search-field values are not decided. Every table handed to the font builder is stored on every path to an Ok result (T09-ADD); the CFF header writers announce the size they write (C15-s)."),
+          "Mutual consistency of table contents and the search-field values are not decided. Every table handed to the font builder is stored on every path to an Ok result (T09-ADD); the CFF header writers announce the size they write (C15-s); hhea.numberOfHMetrics of an instance is the number of long metrics of the hmtx that is written, or no source hmtx is passed through (T09-HHEA)."),
     design_ref="DESIGN.md section 6, C09",
 )
 
